@@ -194,4 +194,26 @@ def items (d : Backend) (inl : Bool) : Nat → Pieces → List Item
   | _, [] => []
   | k, p :: r => pieceItems d inl k p ++ items d inl (nextK inl k p) r
 
+/-! ## the per-piece content condition (hypothesis of `render_safe`) -/
+
+/-- what a value must satisfy on its own to be written inline -/
+def valOK (d : Backend) (v : Val) : Bool :=
+  match v.v with
+  | .num t => t.toList.all (plainChar d)
+  | .str s => s.all (fun c => !(excludedChars d).contains c)
+  | .quoted t => t.toList.all (fun c => c != '\'' && c != '\\')
+  | _ => true
+
+/-- what a piece must satisfy on its own: renderer text without quote characters or marks, no
+panic marker, representable values, and caller-supplied raw text only when it is a non-empty digit
+string (which also excludes the template expansions of `CustomWithExpr`: they start with an empty
+raw piece) -/
+def contentOK (d : Backend) (inl : Bool) : Piece → Bool
+  | .s t => t.toList.all (plainChar d)
+  | .raw t => !t.isEmpty && t.all isDigit
+  | .id _ => true
+  | .c v => valOK d v
+  | .p v => !inl || valOK d v
+  | .bad => false
+
 end SeaQ.Scan
